@@ -39,6 +39,16 @@ def fb(d): return d[0] > 0.5
 def fc(d): return d[2]
 nx = U.named("nx", lambda d: d[0]); ny = U.named("ny", lambda d: d[1]); nb = U.named("nb", lambda d: d[0] > 0.5); nc = U.named("nc", lambda d: d[2])
 cx = U.cached(lambda d: d[0]); cy = U.cached(lambda d: d[1]); cb = U.cached(lambda d: d[0] > 0.5); cc = U.cached(lambda d: d[2])
+SCALE = 1.0
+OFFSET = 0.0
+def gx(d): return d[0] * SCALE + OFFSET          # refers to module globals: __reduce__ ships them as refs
+def gy(d): return d[1] * SCALE
+def gb(d): return d[0] * SCALE > 0.5
+def gc(d): return d[2]
+def mkidx(k):
+    return lambda d, k=k: d[k]                    # one code object, different defaults (functions built by a factory / in a loop)
+def mkgt(t, k=0):
+    return lambda d, t=t, k=k: d[k] > t
 class Rec:
     def __init__(self, x, y, c): self.x, self.y, self.cat = x, y, c
 '''
@@ -47,6 +57,9 @@ KINDS = {
     # kind: (X, Y, B, C quantity expressions, record constructor)
     "lambda": ("qx", "qy", "qb", "qc", "lambda x, y, c: (x, y, c, 0.0)"),
     "def": ("fx", "fy", "fb", "fc", "lambda x, y, c: (x, y, c, 0.0)"),
+    "globals": ("gx", "gy", "gb", "gc", "lambda x, y, c: (x, y, c, 0.0)"),
+    "factory": ("mkidx(0)", "mkidx(1)", "mkgt(0.5)", "mkidx(2)", "lambda x, y, c: (x, y, c, 0.0)"),
+    "defaults": ("(lambda d, k=0: d[k])", "(lambda d, k=1: d[k])", "(lambda d, t=0.5: d[0] > t)", "(lambda d, k=2: d[k])", "lambda x, y, c: (x, y, c, 0.0)"),
     "named": ("nx", "ny", "nb", "nc", "lambda x, y, c: (x, y, c, 0.0)"),
     # cached functions hold state (last arguments): they are created per tree, never shared between engine paths
     "cached": ("U.cached(lambda d: d[0])", "U.cached(lambda d: d[1])", "U.cached(lambda d: d[0] > 0.5)", "U.cached(lambda d: d[2])", "lambda x, y, c: (x, y, c, 0.0)"),
@@ -111,10 +124,39 @@ else:
     )
 
 
+def vectorised(shape, kind, timeout=90):
+    """after the round trip, clone and original receive the same batch through fill.numpy (numpy model of C03)"""
+    X, Y, Bq, C, rec = KINDS[kind]
+    expr = SHAPES[shape].format(X=X, Y=Y, B=Bq, C=C)
+    body = f"""
+k = sel(k, 0, 1)
+with NT():
+    h = MK()
+    if k >= 1: h.fill((0.5, 1.5, "a", 0.0))
+    c = pickle.loads(pickle.dumps(h))
+data = [(x1, y1, sel(c1, "a", "b"), 0.0), (x2, y2, sel(c2, "a", "b"), 0.0)]
+cols = columns(data)
+with NPM():
+    h.fill.numpy(cols, wsc)
+    c.fill.numpy(cols, wsc)
+if not jeq(J(c), J(h)): return "clone-and-original-diverge-after-vectorised-fill"
+"""
+    import gen_C03
+    return Harness(
+        f"C11/vectorised/{{shape}}/{{kind}}".format(shape=shape, kind=kind), [("k", "int"), ("x1", "float"), ("y1", "float"), ("c1", "int"), ("x2", "float"), ("y2", "float"), ("c2", "int"), ("wsc", "float")],
+        "0 <= k <= 1 and -2.0 <= x1 < 2.0 and -2.0 <= x2 < 2.0 and 0 <= c1 <= 1 and 0 <= c2 <= 1 and wsc >= 0.0", body, timeout=timeout,
+        setup=gen_C03.C03_SETUP + C11_SETUP.replace(SETUP, "") + f"MK = lambda: {{expr}}\n".format(expr=expr), tree=expr,
+        bounds=f"shape {{shape}}; quantity kind {{kind}}; pre-pickle state fresh | 1 record; continuation: one symbolic 2-row batch through fill.numpy with a symbolic scalar weight".format(shape=shape, kind=kind),
+    )
+
+
 def harnesses(tier):
     out = []
     for shape in SHAPES:
-        kinds = list(KINDS) if tier == "thorough" or shape in ("Sum", "Bin>Average", "Select>Bin", "Categorize>Sum") else ["lambda", "string-dict", "cached"]
+        kinds = list(KINDS) if tier == "thorough" or shape in ("Sum", "Bin>Average", "Select>Bin", "Categorize>Sum") else ["lambda", "string-dict", "cached", "factory"]
         for kind in kinds:
             out.append(roundtrip(shape, kind, timeout=60 if tier == "quick" else 240))
+    for shape in SHAPES:
+        for kind in (["lambda", "named"] if tier == "quick" else ["lambda", "def", "named", "globals"]):
+            out.append(vectorised(shape, kind, timeout=90 if tier == "quick" else 240))
     return out
